@@ -337,7 +337,9 @@ ForgetBad(pre, a, e) ==
     \cup {<<"C17", "anomaly">>   : z \in IF e.anom = <<>> THEN {} ELSE {1}}
     \cup {<<"C17", "alive">>     : z \in IF post.alive = (a.op \notin OwningKinds) THEN {} ELSE {1}}
     \cup {<<"C17", "borrow_changed">> : z \in IF a.op \in BorrowingKinds /\ (post # pre \/ e.fp # e.pre_fp) THEN {1} ELSE {}}
-    \cup {<<"C17", "sum_recorded">> : z \in IF ~post.alive \/ SumSizes(e.st.hook.fwd) = e.st.cur THEN {} ELSE {1}}
+    \* C02 speaks of "every point": a drained cache whose current_size is not the sum of what it
+    \* holds violates C02 as well, whether or not the drain's destructor ran
+    \cup {<<p, "sum_recorded">> : p \in IF ~post.alive \/ SumSizes(e.st.hook.fwd) = e.st.cur THEN {} ELSE {"C17", "C02"}}
     \cup {<<"C17", "drained_cache">> : z \in
              IF a.op = "drain" /\ ~( /\ post.max = pre.max
                                      /\ C01_Bound(post) /\ C04_NoDup(post)
@@ -443,6 +445,9 @@ CloneStep(e) ==
         want == CloneOf(pre)
         bad == {<<"C14", "clone_state">> : z \in IF MaskVs(dpost) = MaskVs(want) THEN {} ELSE {1}}
                \cup {<<"C14", "C14_Clone">> : z \in IF C14_Clone(MaskVs(pre), MaskVs(dpost)) THEN {} ELSE {1}}
+               \* the same entries in another order: the order of last access is lost (C05 as well)
+               \cup {<<"C05", "clone_order">> : z \in IF KeysOf(dpost.ord) = KeysOf(pre.ord) /\ NoDup(dpost.ord)
+                                                          /\ KeySeq(dpost.ord) # KeySeq(pre.ord) THEN {1} ELSE {}}
                \cup {<<"C14", "clone_marks">> : z \in IF \A i \in DOMAIN e.dst.marks :
                          e.dst.marks[i] = <<<<"CK", e.dst.ord[i][1]>>, <<"CV", e.dst.ord[i][1]>>>>
                          THEN {} ELSE {1}}
@@ -472,6 +477,8 @@ CloneFromStep(e) ==
                                                    /\ dpost.max = pre.max /\ Cap(dpost) >= Len(dpost.ord)
                                                THEN {} ELSE {1}}
                \cup {<<"C01", "C01_Bound">> : z \in IF C01_Bound(dpost) THEN {} ELSE {1}}
+               \cup {<<"C05", "clone_order">> : z \in IF KeysOf(dpost.ord) = KeysOf(pre.ord) /\ NoDup(dpost.ord)
+                                                          /\ KeySeq(dpost.ord) # KeySeq(pre.ord) THEN {1} ELSE {}}
                \cup {<<"C14", "clone_marks">> : z \in IF \A i \in DOMAIN e.dst.marks :
                          e.dst.marks[i] = <<<<"CK", e.dst.ord[i][1]>>, <<"CV", e.dst.ord[i][1]>>>>
                          THEN {} ELSE {1}}
